@@ -31,7 +31,7 @@ class C06(BaseCheck):
           'bands (0.5,2) (1,1.5) (2,8), 1-16 members, jitter on/off) driven through 2-4 phases of steady '
           'traffic (K outstanding requests held by completing one and issuing one every delta for >= 60 '
           'virtual s) separated by disturbances (member down/up, join/leave, bursts). Safety after every '
-          'op: active/idle partition of the server set, contraction floor, load-driven growth cap, '
+          'op: active/idle partition of the server set, contraction floor (and: never below the floor while idle members remain, whatever happened), load-driven growth cap, '
           'published gauges == set sizes. Bounded progress per healthy steady phase: every size seen in '
           'the last third lies in the interval implied by the band and a harness-side reference EMA. '
           'non-trivial = at least one steady phase judged or one contraction/expansion observed; distinct '
@@ -163,6 +163,14 @@ class C06(BaseCheck):
       jit = jitter_active_since(ev_mark)
       if jit:
         classes.add('jitter-round')
+      if not ss.pending and not lb._pending_endpoints:
+        # whatever happened (leave, failure, contraction): with idle members to draw from the
+        # active set is never left below the floor
+        out.obligations += 1
+        if s < min(mn, len(truth)) and idle:
+          viol('below-floor', '%d active members, min_size=%d, members=%d, although %d idle member(s) remain (after %s)' % (
+            s, mn, len(truth), len(idle), 'a leave of an active member' if left_active else 'an operation'),
+            {'after_leave': bool(left_active)})
       if s < pre_size:
         stats['contractions'] += 1
         classes.add('contraction')
